@@ -85,14 +85,21 @@ def p2(prog, rep):
                       f"process_proposal accepts a block whose {nm} commitment was not compared "
                       f"(equal) with the one derived from its transactions", p.where())
             if cs:
-                other = cs[0].b if nm in cs[0].a else cs[0].a
-                # the expected side must come from generate_rollup_datas_commitment
-                r_ok = any(("generate_rollup_datas_commitment" in r) for r in
-                           body.named_def_roots("expected_rollup_datas_root") +
-                           body.named_def_roots("expected_rollup_ids_root") + [other]) or bool(gen)
+                own_first = nm in cs[0].a
+                other = cs[0].b if own_first else cs[0].a
+                # the expected side must be the matching field of what
+                # generate_rollup_datas_commitment returned, on every definition of the expected
+                # value (it is assigned in both arms of `if uses_data_item_enum`)
+                field = {"rollup_transactions_root": "rollup_datas_root",
+                         "rollup_ids_root": "rollup_ids_root"}[nm]
+                srcs = body.tuple_field_def_roots(other) or [other]
+                r_ok = bool(gen) and nm not in other and all(
+                    "generate_rollup_datas_commitment" in r and r.endswith("." + field)
+                    for r in srcs)
                 rep.check(r_ok, "P2", f"{nm}:expected-from-generator",
-                          "expected commitment is not derived by generate_rollup_datas_commitment",
-                          p.where())
+                          f"the block's {nm} is compared with {srcs} - not with the {field} "
+                          "derived by generate_rollup_datas_commitment from the block's "
+                          "transactions and deposits", p.where())
         for callee, nm in ((S + "app::ensure_upgrade_change_hashes_as_expected", "upgrade-hashes"),
                            (S + "app::construct_checked_txs", "decode+signature"),
                            (A + "process_proposal_tx_execution", "execution"),
